@@ -261,7 +261,7 @@ Lemma prepared_fits rf rt sl st en :
   prepare_slice s sl rf = Ok (st, en) ->
   PrepFits s rf rt sl st en.
 Proof.
-  intros Hv Hsh Hos Hdt Ho H. unfold prepare_slice in H.
+  intros Hv Hsh Hos Hdt Ho H. apply (prepare_slice_ok s) in H. unfold prepare_slice0 in H.
   set (os := sl_open_start sl) in *. set (oe := sl_open_end sl) in *. set (content := sl_content sl) in *.
   set (extra := rp_depth rf - os) in *.
   destruct (rp_node rf extra) as [parent|] eqn:Epar; [|discriminate]. cbn [bind] in H.
